@@ -1,16 +1,539 @@
-(* Lemmas about Model/Codec.v (provisional: witness of the truncated-segment defect). *)
+(* Lemmas about Model/Codec.v (segment and checkpoint framing), for an arbitrary checksum
+   function [crc] with 32-bit results and an arbitrary payload validity predicate. *)
 From Coq Require Import String Ascii Arith NArith List Bool Lia.
 From RV Require Import Lib.Hex Lib.Bytes Lib.Crc32 Gen.Consts Model.Codec.
 Import ListNotations.
 Local Open Scope N_scope.
 
-Definition wit_p0 : bytes := [1; 53; 184; 116].
-Definition wit_p1 : bytes := repeat 0 16 ++ [71; 69; 83; 82] ++ repeat 0 4.
-Definition wit_seg : bytes :=
-  match seg_write crc32 [(1, wit_p0); (2, wit_p1)] with Ok b => b | _ => [] end.
+Definition U32 : N := 4294967296.
+Definition U64 : N := 18446744073709551616.
 
-Lemma segment_prefix_witness :
-  (exists h, seg_read crc32 (fun _ => true) wit_seg = Ok (h, [wit_p0; wit_p1])) /\
-  (72 < length wit_seg)%nat /\
-  (exists h, seg_read crc32 (fun _ => true) (firstn 72 wit_seg) = Ok (h, [wit_p0])).
-Proof. split; [|split]; [eexists; vm_compute; reflexivity | vm_compute; lia | eexists; vm_compute; reflexivity]. Qed.
+(* constants the proofs rely on (they stop compiling when segment.rs / checkpoint.rs change) *)
+Lemma seg_hs : SEGMENT_HEADER_SIZE = 40. Proof. reflexivity. Qed.
+Lemma seg_fs : SEGMENT_FOOTER_SIZE = 24. Proof. reflexivity. Qed.
+Lemma chk_hs : CHECKPOINT_HEADER_SIZE = 48. Proof. reflexivity. Qed.
+Lemma chk_fs : CHECKPOINT_FOOTER_SIZE = 16. Proof. reflexivity. Qed.
+
+(* ---------- generic slicing ---------- *)
+Lemma sliceN_skip : forall A (p r : list A) a b n,
+  lenN p = n -> n <= a -> a <= b -> sliceN a b (p ++ r) = sliceN (a - n) (b - n) r.
+Proof.
+  intros A p r a b n Hp Ha Hb. unfold sliceN. rewrite lenN_app, Hp.
+  replace (a - n <=? b - n) with (a <=? b)
+    by (destruct (a <=? b) eqn:E; symmetry; [apply N.leb_le in E; apply N.leb_le|apply N.leb_gt in E; apply N.leb_gt]; lia).
+  replace (b - n <=? lenN r) with (b <=? n + lenN r)
+    by (destruct (b <=? n + lenN r) eqn:E; symmetry; [apply N.leb_le in E; apply N.leb_le|apply N.leb_gt in E; apply N.leb_gt]; lia).
+  destruct ((a <=? b) && (b <=? n + lenN r)); auto.
+  rewrite dropN_app_ge by lia. rewrite Hp. do 2 f_equal. lia.
+Qed.
+Lemma sliceN_app_tail : forall A (a b : list A) x y,
+  x = lenN a -> y = lenN a + lenN b -> sliceN x y (a ++ b) = Some b.
+Proof.
+  intros. rewrite <- (app_nil_r b) at 1. now apply sliceN_app_mid.
+Qed.
+Lemma sliceN_all : forall A (l : list A) y, y = lenN l -> sliceN 0 y l = Some l.
+Proof. intros. rewrite <- (app_nil_r l) at 1. now apply sliceN_app_head. Qed.
+Lemma indexN_skip : forall (p r : list N) i n, lenN p = n -> n <= i -> indexN i (p ++ r) = indexN (i - n) r.
+Proof.
+  intros p r i n Hp Hi. unfold indexN. rewrite lenN_app, Hp.
+  replace (i - n <? lenN r) with (i <? n + lenN r)
+    by (destruct (i <? n + lenN r) eqn:E; symmetry; [apply N.ltb_lt in E; apply N.ltb_lt|apply N.ltb_ge in E; apply N.ltb_ge]; lia).
+  destruct (i <? n + lenN r); auto. f_equal.
+  rewrite app_nth2 by (unfold lenN in *; lia). f_equal. unfold lenN in *. lia.
+Qed.
+Lemma indexN_0_cons : forall x l, indexN 0 (x :: l) = Some x.
+Proof. intros. unfold indexN. rewrite lenN_cons. replace (0 <? 1 + lenN l) with true by (symmetry; apply N.ltb_lt; lia). reflexivity. Qed.
+Lemma indexN_1_cons : forall x y l, indexN 1 (x :: y :: l) = Some y.
+Proof. intros. unfold indexN. rewrite !lenN_cons. replace (1 <? 1 + (1 + lenN l)) with true by (symmetry; apply N.ltb_lt; lia). reflexivity. Qed.
+
+Lemma resize0_pad : forall n b, lenN b <= n -> resize0 n b = b ++ repeat 0 (N.to_nat (n - lenN b)).
+Proof.
+  intros. unfold resize0. apply takeN_all. rewrite lenN_app, lenN_repeat. lia.
+Qed.
+
+Lemma firstn_app_split : forall A (a b : list A) k, (length a <= k)%nat ->
+  firstn k (a ++ b) = a ++ firstn (k - length a) b.
+Proof. intros. rewrite firstn_app, firstn_all2 by lia. reflexivity. Qed.
+
+Section CodecProofs.
+  Variable crc : bytes -> N.
+  Variable deser_ok : bytes -> bool.
+  Hypothesis crc_u32 : forall d, crc d < U32.
+
+  Notation seg_read := (seg_read crc deser_ok).
+  Notation seg_open := (seg_open crc).
+  Notation rec_loop := (rec_loop deser_ok).
+  Notation chk_read := (chk_read crc deser_ok).
+
+  (* ================= segment ================= *)
+  Definition seg_hdr_wf (h : seg_hdr) : Prop :=
+    lenN (sh_magic h) = 4 /\ sh_count h < U32 /\ sh_min h < U64 /\ sh_max h < U64 /\ sh_ck h < U32.
+
+  Definition seg_fields_of (h : seg_hdr) : bytes :=
+    seg_hdr_fields (sh_magic h) (sh_version h) (sh_flags h) (sh_count h) (sh_min h) (sh_max h).
+  (* the 40 header bytes with arbitrary padding *)
+  Definition seg_hdr_image (h : seg_hdr) (pad : bytes) : bytes :=
+    seg_fields_of h ++ le_enc 4 (sh_ck h) ++ pad.
+
+  Lemma lenN_seg_fields : forall h, lenN (sh_magic h) = 4 -> lenN (seg_fields_of h) = 26.
+  Proof.
+    intros h Hm. unfold seg_fields_of, seg_hdr_fields. rewrite !lenN_app, !lenN_le_enc, Hm. reflexivity.
+  Qed.
+  Lemma lenN_seg_hdr_image : forall h pad, lenN (sh_magic h) = 4 -> lenN pad = 10 ->
+    lenN (seg_hdr_image h pad) = 40.
+  Proof.
+    intros. unfold seg_hdr_image. rewrite !lenN_app, lenN_seg_fields, lenN_le_enc by auto. lia.
+  Qed.
+  Lemma seg_hdr_bytes_eq : forall h, lenN (sh_magic h) = 4 ->
+    seg_hdr_bytes h = seg_hdr_image h (repeat 0 10).
+  Proof.
+    intros h Hm. unfold seg_hdr_bytes. fold (seg_fields_of h).
+    rewrite resize0_pad; rewrite lenN_app, lenN_seg_fields, lenN_le_enc, seg_hs by auto; [|cbn; lia].
+    unfold seg_hdr_image. now rewrite <- app_assoc.
+  Qed.
+
+  Lemma seg_hdr_parse : forall h pad, seg_hdr_wf h -> lenN pad = 10 ->
+    seg_hdr_from_bytes (seg_hdr_image h pad) = Ok h.
+  Proof.
+    intros h pad (Hm & Hc & Hmin & Hmax & Hck) Hp. unfold U32, U64 in *.
+    unfold seg_hdr_from_bytes. rewrite lenN_seg_hdr_image, seg_hs by auto. cbn [N.ltb N.compare Pos.compare Pos.compare_cont].
+    unfold seg_hdr_image, seg_fields_of, seg_hdr_fields. rewrite <- !app_assoc.
+    rewrite (sliceN_app_head _ (sh_magic h)) by auto. cbn [or_panic rbind].
+    rewrite (indexN_skip (sh_magic h) _ 4 4) by (auto; lia). change (4 - 4) with 0.
+    rewrite indexN_app_l by (cbn; lia).
+    change (indexN 0 [sh_version h; sh_flags h]) with (Some (sh_version h)). cbn [or_panic rbind].
+    rewrite (indexN_skip (sh_magic h) _ 5 4) by (auto; lia). change (5 - 4) with 1.
+    rewrite indexN_app_l by (cbn; lia).
+    change (indexN 1 [sh_version h; sh_flags h]) with (Some (sh_flags h)). cbn [or_panic rbind].
+    rewrite (sliceN_skip _ (sh_magic h) _ 6 10 4) by (auto; lia). change (6 - 4) with 2. change (10 - 4) with 6.
+    rewrite (sliceN_skip _ [sh_version h; sh_flags h] _ 2 6 2) by (auto; lia). change (2 - 2) with 0. change (6 - 2) with 4.
+    rewrite (sliceN_app_head _ (le_enc 4 (sh_count h))) by (now rewrite lenN_le_enc). cbn [or_panic rbind].
+    rewrite (sliceN_skip _ (sh_magic h) _ 10 18 4) by (auto; lia). change (10 - 4) with 6. change (18 - 4) with 14.
+    rewrite (sliceN_skip _ [sh_version h; sh_flags h] _ 6 14 2) by (auto; lia). change (6 - 2) with 4. change (14 - 2) with 12.
+    rewrite (sliceN_skip _ (le_enc 4 (sh_count h)) _ 4 12 4) by (try rewrite lenN_le_enc; auto; lia). change (4 - 4) with 0. change (12 - 4) with 8.
+    rewrite (sliceN_app_head _ (le_enc 8 (sh_min h))) by (now rewrite lenN_le_enc). cbn [or_panic rbind].
+    rewrite (sliceN_skip _ (sh_magic h) _ 18 26 4) by (auto; lia). change (18 - 4) with 14. change (26 - 4) with 22.
+    rewrite (sliceN_skip _ [sh_version h; sh_flags h] _ 14 22 2) by (auto; lia). change (14 - 2) with 12. change (22 - 2) with 20.
+    rewrite (sliceN_skip _ (le_enc 4 (sh_count h)) _ 12 20 4) by (try rewrite lenN_le_enc; auto; lia). change (12 - 4) with 8. change (20 - 4) with 16.
+    rewrite (sliceN_skip _ (le_enc 8 (sh_min h)) _ 8 16 8) by (try rewrite lenN_le_enc; auto; lia). change (8 - 8) with 0. change (16 - 8) with 8.
+    rewrite (sliceN_app_head _ (le_enc 8 (sh_max h))) by (now rewrite lenN_le_enc). cbn [or_panic rbind].
+    rewrite (sliceN_skip _ (sh_magic h) _ 26 30 4) by (auto; lia). change (26 - 4) with 22. change (30 - 4) with 26.
+    rewrite (sliceN_skip _ [sh_version h; sh_flags h] _ 22 26 2) by (auto; lia). change (22 - 2) with 20. change (26 - 2) with 24.
+    rewrite (sliceN_skip _ (le_enc 4 (sh_count h)) _ 20 24 4) by (try rewrite lenN_le_enc; auto; lia). change (20 - 4) with 16. change (24 - 4) with 20.
+    rewrite (sliceN_skip _ (le_enc 8 (sh_min h)) _ 16 20 8) by (try rewrite lenN_le_enc; auto; lia). change (16 - 8) with 8. change (20 - 8) with 12.
+    rewrite (sliceN_skip _ (le_enc 8 (sh_max h)) _ 8 12 8) by (try rewrite lenN_le_enc; auto; lia). change (8 - 8) with 0. change (12 - 8) with 4.
+    rewrite (sliceN_app_head _ (le_enc 4 (sh_ck h))) by (now rewrite lenN_le_enc). cbn [or_panic rbind].
+    rewrite !le_dec_enc_u32, !le_dec_enc_u64 by lia. destruct h; reflexivity.
+  Qed.
+
+  (* ---------- footer ---------- *)
+  Definition seg_ftr_image (ck us cs : N) (m : bytes) : bytes :=
+    le_enc 4 ck ++ le_enc 8 us ++ le_enc 8 cs ++ m.
+  Lemma lenN_seg_ftr_image : forall ck us cs m, lenN m = 4 -> lenN (seg_ftr_image ck us cs m) = 24.
+  Proof. intros. unfold seg_ftr_image. rewrite !lenN_app, !lenN_le_enc, H. reflexivity. Qed.
+
+  Lemma seg_ftr_parse : forall ck us cs m, ck < U32 -> us < U64 -> cs < U64 -> lenN m = 4 ->
+    seg_ftr_from_bytes (seg_ftr_image ck us cs m) =
+    if bytes_eqb m SEGMENT_FOOTER_MAGIC then Ok (SegFtr ck us cs m) else Err EMagic.
+  Proof.
+    intros ck us cs m Hck Hus Hcs Hm. unfold U32, U64 in *. unfold seg_ftr_from_bytes.
+    rewrite lenN_seg_ftr_image, seg_fs by auto. cbn [N.ltb N.compare Pos.compare Pos.compare_cont].
+    unfold seg_ftr_image.
+    rewrite (sliceN_app_head _ (le_enc 4 ck)) by (now rewrite lenN_le_enc). cbn [or_panic rbind].
+    rewrite (sliceN_skip _ (le_enc 4 ck) _ 4 12 4) by (try rewrite lenN_le_enc; auto; lia). change (4 - 4) with 0. change (12 - 4) with 8.
+    rewrite (sliceN_app_head _ (le_enc 8 us)) by (now rewrite lenN_le_enc). cbn [or_panic rbind].
+    rewrite (sliceN_skip _ (le_enc 4 ck) _ 12 20 4) by (try rewrite lenN_le_enc; auto; lia). change (12 - 4) with 8. change (20 - 4) with 16.
+    rewrite (sliceN_skip _ (le_enc 8 us) _ 8 16 8) by (try rewrite lenN_le_enc; auto; lia). change (8 - 8) with 0. change (16 - 8) with 8.
+    rewrite (sliceN_app_head _ (le_enc 8 cs)) by (now rewrite lenN_le_enc). cbn [or_panic rbind].
+    rewrite (sliceN_skip _ (le_enc 4 ck) _ 20 24 4) by (try rewrite lenN_le_enc; auto; lia). change (20 - 4) with 16. change (24 - 4) with 20.
+    rewrite (sliceN_skip _ (le_enc 8 us) _ 16 20 8) by (try rewrite lenN_le_enc; auto; lia). change (16 - 8) with 8. change (20 - 8) with 12.
+    rewrite (sliceN_skip _ (le_enc 8 cs) _ 8 12 8) by (try rewrite lenN_le_enc; auto; lia). change (8 - 8) with 0. change (12 - 8) with 4.
+    rewrite sliceN_all by auto. cbn [or_panic rbind].
+    destruct (bytes_eqb m SEGMENT_FOOTER_MAGIC); cbn [negb]; auto.
+    now rewrite le_dec_enc_u32, !le_dec_enc_u64 by lia.
+  Qed.
+
+  (* the footer parser never panics on 24 bytes *)
+  Lemma seg_ftr_no_panic : forall fb, lenN fb = 24 -> seg_ftr_from_bytes fb <> Panic.
+  Proof.
+    intros fb H. unfold seg_ftr_from_bytes. rewrite H, seg_fs. cbn [N.ltb N.compare Pos.compare Pos.compare_cont].
+    rewrite (sliceN_ok _ 0 4), (sliceN_ok _ 4 12), (sliceN_ok _ 12 20), (sliceN_ok _ 20 24) by lia.
+    cbn [or_panic rbind]. destruct (negb _); discriminate.
+  Qed.
+
+  (* ---------- open ---------- *)
+  Lemma seg_open_image : forall h pad rd fb, seg_hdr_wf h -> lenN pad = 10 -> lenN fb = 24 ->
+    seg_open (seg_hdr_image h pad ++ rd ++ fb) =
+    (do _ <- seg_hdr_validate crc h;
+     do ft <- seg_ftr_from_bytes fb;
+     if negb (sh_flags h =? 0) then Err ECompression else Ok (Seg h ft rd)).
+  Proof.
+    intros h pad rd fb Hwf Hp Hf. pose proof Hwf as (Hm & _).
+    pose proof (lenN_seg_hdr_image h pad Hm Hp) as Lh.
+    unfold Codec.seg_open. rewrite seg_hs, seg_fs.
+    assert (Li : lenN (seg_hdr_image h pad ++ rd ++ fb) = 40 + lenN rd + 24) by (rewrite !lenN_app; lia).
+    rewrite Li.
+    replace (40 + lenN rd + 24 <? 40 + 24) with false by (symmetry; apply N.ltb_ge; lia).
+    rewrite (sliceN_app_head _ (seg_hdr_image h pad)) by auto. cbn [or_panic rbind].
+    rewrite seg_hdr_parse by auto. cbn [rbind].
+    destruct (seg_hdr_validate crc h) as [[]| |]; cbn [rbind]; auto.
+    replace (40 + lenN rd + 24 - 24) with (40 + lenN rd) by lia.
+    replace (seg_hdr_image h pad ++ rd ++ fb) with ((seg_hdr_image h pad ++ rd) ++ fb) by now rewrite <- app_assoc.
+    rewrite (sliceN_app_tail _ (seg_hdr_image h pad ++ rd) fb) by (rewrite lenN_app; lia).
+    cbn [or_panic rbind]. destruct (seg_ftr_from_bytes fb); cbn [rbind]; auto.
+    destruct (negb (sh_flags h =? 0)); auto.
+    rewrite <- app_assoc. rewrite (sliceN_app_mid _ (seg_hdr_image h pad) rd fb) by lia.
+    reflexivity.
+  Qed.
+
+  (* ---------- records ---------- *)
+  Definition payload_ok (p : bytes) : Prop := lenN p < U32.
+
+  Lemma lenN_seg_record : forall p, lenN (seg_record p) = 4 + lenN p.
+  Proof. intros. unfold seg_record. now rewrite lenN_app, lenN_le_enc. Qed.
+  Lemma length_seg_record : forall p, length (seg_record p) = (4 + length p)%nat.
+  Proof. intros. pose proof (lenN_seg_record p). unfold lenN in *. lia. Qed.
+
+  Lemma rec_loop_step : forall f remaining d, remaining <> 0 -> d <> [] ->
+    rec_loop (S f) remaining d =
+    if lenN d <? 4 then Err ETooShort else
+    do lb <- or_panic (sliceN 0 4 d);
+    if lenN (dropN 4 d) <? le_dec lb then Err ETooShort else
+    if deser_ok (takeN (le_dec lb) (dropN 4 d))
+    then do r <- rec_loop f (remaining - 1) (dropN (le_dec lb) (dropN 4 d));
+         Ok (takeN (le_dec lb) (dropN 4 d) :: r)
+    else Err ESerial.
+  Proof.
+    intros f remaining d Hr Hd. cbn [Codec.rec_loop].
+    replace (remaining =? 0) with false by (symmetry; now apply N.eqb_neq).
+    destruct d; [congruence|]. reflexivity.
+  Qed.
+
+  (* one whole record in front *)
+  Lemma rec_loop_record : forall f remaining p rest, remaining <> 0 -> payload_ok p ->
+    rec_loop (S f) remaining (seg_record p ++ rest) =
+    if deser_ok p then do r <- rec_loop f (remaining - 1) rest; Ok (p :: r) else Err ESerial.
+  Proof.
+    intros f remaining p rest Hr Hp. unfold payload_ok, U32 in Hp.
+    rewrite rec_loop_step; auto.
+    2:{ intros E. apply (f_equal (@lenN N)) in E. rewrite lenN_app, lenN_seg_record in E. change (lenN (@nil N)) with 0 in E. lia. }
+    rewrite lenN_app, lenN_seg_record.
+    replace (4 + lenN p + lenN rest <? 4) with false by (symmetry; apply N.ltb_ge; lia).
+    unfold seg_record. rewrite <- app_assoc.
+    rewrite (sliceN_app_head _ (le_enc 4 (lenN p))) by (now rewrite lenN_le_enc). cbn [or_panic rbind].
+    rewrite le_dec_enc_u32 by lia.
+    rewrite (dropN_app_exact' _ 4 (le_enc 4 (lenN p))) by (now rewrite lenN_le_enc).
+    rewrite lenN_app.
+    replace (lenN p + lenN rest <? lenN p) with false by (symmetry; apply N.ltb_ge; lia).
+    now rewrite takeN_app_exact, dropN_app_exact.
+  Qed.
+
+  Lemma lenN_S_neq0 : forall A (x : A) l, lenN (x :: l) <> 0.
+  Proof. intros. rewrite lenN_cons. lia. Qed.
+  Lemma lenN_cons_pred : forall A (x : A) l, lenN (x :: l) - 1 = lenN l.
+  Proof. intros. rewrite lenN_cons. lia. Qed.
+
+  Lemma rec_loop_ok : forall ps f,
+    Forall (fun p => payload_ok p /\ deser_ok p = true) ps ->
+    (length (concat (map seg_record ps)) < f)%nat ->
+    rec_loop f (lenN ps) (concat (map seg_record ps)) = Ok ps.
+  Proof.
+    induction ps as [|p r IH]; intros f Hall Hf.
+    - destruct f; [lia|]. reflexivity.
+    - inversion Hall as [|? ? [Hp Hd] Hr]; subst. cbn [map concat] in *.
+      destruct f; [lia|]. rewrite rec_loop_record by (auto using lenN_S_neq0).
+      rewrite Hd, lenN_cons_pred, IH; auto. rewrite app_length, length_seg_record in Hf. lia.
+  Qed.
+
+  (* a strict prefix of the record data never yields the promised number of records *)
+  Lemma rec_loop_truncated : forall ps (k f : nat),
+    Forall payload_ok ps ->
+    (k < length (concat (map seg_record ps)))%nat -> (k < f)%nat ->
+    exists e, rec_loop f (lenN ps) (firstn k (concat (map seg_record ps))) = Err e.
+  Proof.
+    induction ps as [|p r IH]; intros k f Hall Hk Hf; cbn [map concat] in *.
+    - cbn in Hk. lia.
+    - inversion Hall as [|? ? Hp Hr]; subst.
+      destruct f; [lia|].
+      pose proof (length_seg_record p) as Lr.
+      destruct (le_lt_dec (length (seg_record p)) k) as [Hge|Hlt].
+      + (* the first record is whole *)
+        rewrite firstn_app_split by auto.
+        rewrite rec_loop_record by (auto using lenN_S_neq0).
+        destruct (deser_ok p); [|eexists; reflexivity].
+        rewrite lenN_cons_pred.
+        destruct (IH (k - length (seg_record p))%nat f Hr) as [e He];
+          [rewrite app_length in Hk; lia|lia|].
+        rewrite He. eexists; reflexivity.
+      + (* the cut is inside the first record *)
+        rewrite firstn_app. replace (k - length (seg_record p))%nat with 0%nat by lia.
+        cbn [firstn]. rewrite app_nil_r.
+        destruct k as [|k].
+        { cbn [firstn Codec.rec_loop]. rewrite lenN_cons.
+          replace (1 + lenN r =? 0) with false by (symmetry; apply N.eqb_neq; lia). eexists; reflexivity. }
+        rewrite rec_loop_step.
+        2:{ apply lenN_S_neq0. }
+        2:{ intros E. apply (f_equal (@length N)) in E. rewrite firstn_length in E. cbn [length] in E. lia. }
+        assert (Lk : lenN (firstn (S k) (seg_record p)) = N.of_nat (S k)).
+        { unfold lenN. rewrite firstn_length. lia. }
+        rewrite Lk.
+        destruct (N.of_nat (S k) <? 4) eqn:E4; [eexists; reflexivity|]. apply N.ltb_ge in E4.
+        unfold seg_record. rewrite firstn_app_split by (rewrite le_enc_length; lia).
+        rewrite le_enc_length.
+        rewrite (sliceN_app_head _ (le_enc 4 (lenN p))) by (now rewrite lenN_le_enc). cbn [or_panic rbind].
+        unfold payload_ok, U32 in Hp. rewrite le_dec_enc_u32 by lia.
+        rewrite (dropN_app_exact' _ 4 (le_enc 4 (lenN p))) by (now rewrite lenN_le_enc).
+        replace (lenN (firstn (S k - 4) p) <? lenN p) with true.
+        * eexists; reflexivity.
+        * symmetry. apply N.ltb_lt. unfold lenN. rewrite firstn_length. lia.
+  Qed.
+
+  (* ---------- whole image: what the writer produces, with arbitrary padding / size fields ---------- *)
+  Definition seg_image (h : seg_hdr) (pad : bytes) (ps : list bytes) (fck us cs : N) (fm : bytes) : bytes :=
+    seg_hdr_image h pad ++ concat (map seg_record ps) ++ seg_ftr_image fck us cs fm.
+
+  Definition seg_hdr_valid (h : seg_hdr) : Prop :=
+    sh_magic h = SEGMENT_MAGIC /\ sh_version h = SEGMENT_VERSION /\ sh_ck h = crc (seg_fields_of h).
+
+  Lemma seg_hdr_validate_ok : forall h, seg_hdr_valid h -> seg_hdr_validate crc h = Ok tt.
+  Proof.
+    intros h (Hm & Hv & Hc). unfold seg_hdr_validate, seg_hdr_checksum. fold (seg_fields_of h).
+    rewrite Hm, Hv, Hc, bytes_eqb_refl, !N.eqb_refl. reflexivity.
+  Qed.
+
+  (* reading an image: header valid, flag 0, count = number of records, footer checksum right.
+     Padding bytes and the footer's two size fields are arbitrary: they are never looked at. *)
+  Lemma seg_read_image : forall h pad ps us cs,
+    seg_hdr_wf h -> seg_hdr_valid h -> sh_flags h = 0 -> sh_count h = lenN ps ->
+    lenN pad = 10 -> us < U64 -> cs < U64 ->
+    Forall (fun p => payload_ok p /\ deser_ok p = true) ps ->
+    seg_read (seg_image h pad ps (crc (concat (map seg_record ps))) us cs SEGMENT_FOOTER_MAGIC) = Ok (h, ps).
+  Proof.
+    intros h pad ps us cs Hwf Hv Hfl Hcnt Hpad Hus Hcs Hall.
+    unfold Codec.seg_read, seg_image.
+    rewrite seg_open_image by (auto; apply lenN_seg_ftr_image; reflexivity).
+    rewrite seg_hdr_validate_ok by auto. cbn [rbind].
+    rewrite seg_ftr_parse by (auto; reflexivity). rewrite bytes_eqb_refl. cbn [rbind].
+    rewrite Hfl. cbn [N.eqb negb rbind].
+    unfold seg_validate. cbn [sg_data sg_ftr sf_ck]. rewrite N.eqb_refl. cbn [rbind].
+    unfold seg_records. cbn [sg_data sg_hdr]. rewrite Hcnt, rec_loop_ok; auto.
+  Qed.
+
+  (* every strict prefix of such an image is an error - no assumption about crc *)
+  Lemma seg_prefix_rejected : forall h pad ps fck us cs (k : nat),
+    seg_hdr_wf h -> seg_hdr_valid h -> sh_flags h = 0 -> sh_count h = lenN ps ->
+    lenN pad = 10 -> Forall payload_ok ps ->
+    let img := seg_image h pad ps fck us cs SEGMENT_FOOTER_MAGIC in
+    (k < length img)%nat -> exists e, seg_read (firstn k img) = Err e.
+  Proof.
+    intros h pad ps fck us cs k Hwf Hv Hfl Hcnt Hpad Hall img Hk.
+    pose proof Hwf as (Hm & _).
+    pose proof (lenN_seg_hdr_image h pad Hm Hpad) as Lh.
+    assert (Lh' : length (seg_hdr_image h pad) = 40%nat) by (unfold lenN in Lh; lia).
+    set (rd := concat (map seg_record ps)) in *.
+    set (fb := seg_ftr_image fck us cs SEGMENT_FOOTER_MAGIC) in *.
+    assert (Lf : length fb = 24%nat).
+    { pose proof (lenN_seg_ftr_image fck us cs SEGMENT_FOOTER_MAGIC eq_refl). unfold lenN in *. fold fb in H. lia. }
+    assert (Li : length img = (40 + length rd + 24)%nat).
+    { unfold img, seg_image. fold rd fb. rewrite !app_length. lia. }
+    destruct (le_lt_dec 64 k) as [H64|H64].
+    - (* the prefix still has a header and 24 trailing bytes *)
+      assert (E : firstn k img = seg_hdr_image h pad ++ firstn (k - 64) rd
+                                 ++ skipn (k - 64) (firstn (k - 40) (rd ++ fb))).
+      { unfold img, seg_image. fold rd fb. rewrite firstn_app_split by lia. f_equal. rewrite Lh'.
+        rewrite <- (firstn_skipn (k - 64) (firstn (k - 40) (rd ++ fb))) at 1. f_equal.
+        rewrite firstn_firstn. replace (Nat.min (k - 64) (k - 40)) with (k - 64)%nat by lia.
+        rewrite firstn_app. replace (k - 64 - length rd)%nat with 0%nat by lia.
+        cbn [firstn]. now rewrite app_nil_r. }
+      rewrite E. unfold Codec.seg_read.
+      rewrite seg_open_image; auto.
+      2:{ unfold lenN. rewrite skipn_length, firstn_length, app_length. lia. }
+      rewrite seg_hdr_validate_ok by auto. cbn [rbind].
+      destruct (seg_ftr_from_bytes _) as [ft|e|] eqn:Ef; cbn [rbind]; [|eexists; reflexivity|].
+      + rewrite Hfl. cbn [N.eqb negb rbind].
+        destruct (seg_validate crc _) as [[]|e|] eqn:Ev; cbn [rbind]; [|eexists; reflexivity|].
+        * unfold seg_records. cbn [sg_data sg_hdr]. rewrite Hcnt.
+          destruct (rec_loop_truncated ps (k - 64) (S (length (firstn (k - 64) rd))) Hall) as [e He].
+          { fold rd. lia. }
+          { rewrite firstn_length. lia. }
+          fold rd in He. rewrite He. eexists; reflexivity.
+        * unfold seg_validate in Ev. destruct (_ =? _) in Ev; discriminate.
+      + exfalso. refine (seg_ftr_no_panic _ _ Ef).
+        unfold lenN. rewrite skipn_length, firstn_length, app_length. lia.
+    - exists ETooShort. unfold Codec.seg_read, Codec.seg_open. rewrite seg_hs, seg_fs.
+      replace (lenN (firstn k img) <? 40 + 24) with true; auto.
+      symmetry. apply N.ltb_lt. unfold lenN. rewrite firstn_length. lia.
+  Qed.
+
+  (* ---------- the writer ---------- *)
+  Lemma fold_min_le : forall l a, fold_left N.min l a <= a.
+  Proof. induction l as [|x r IH]; intros a; cbn [fold_left]; [lia|]. specialize (IH (N.min a x)). lia. Qed.
+  Lemma fold_max_lt : forall l a b, a < b -> Forall (fun x => x < b) l -> fold_left N.max l a < b.
+  Proof.
+    induction l as [|x r IH]; intros a b Ha Hl; cbn [fold_left]; auto.
+    inversion Hl; subst. apply IH; auto. lia.
+  Qed.
+
+  Definition rec_wf (r : N * bytes) : Prop := fst r < U64 /\ payload_ok (snd r) /\ deser_ok (snd r) = true.
+
+  Lemma seg_records_bytes_eq : forall recs,
+    seg_records_bytes recs = concat (map seg_record (map snd recs)).
+  Proof. intros. unfold seg_records_bytes. now rewrite map_map. Qed.
+
+  Definition seg_hdr_of (recs : list (N * bytes)) : seg_hdr :=
+    seg_hdr_new crc (lenN recs) (fold_left N.min (map fst recs) U64_MAX) (fold_left N.max (map fst recs) 0).
+
+  Lemma seg_hdr_of_wf : forall recs, lenN recs < U32 -> Forall rec_wf recs ->
+    seg_hdr_wf (seg_hdr_of recs) /\ seg_hdr_valid (seg_hdr_of recs) /\
+    sh_flags (seg_hdr_of recs) = 0 /\ sh_count (seg_hdr_of recs) = lenN recs.
+  Proof.
+    intros recs Hn Hall. unfold seg_hdr_of, seg_hdr_new, seg_hdr_wf, seg_hdr_valid, seg_hdr_checksum, seg_fields_of.
+    cbn [sh_magic sh_version sh_flags sh_count sh_min sh_max sh_ck].
+    repeat split; auto.
+    - pose proof (fold_min_le (map fst recs) U64_MAX). unfold U64, U64_MAX in *. lia.
+    - apply fold_max_lt; [unfold U64; lia|].
+      apply Forall_forall. intros x Hx. apply in_map_iff in Hx as (r & <- & Hr).
+      apply (proj1 (Forall_forall _ _) Hall) in Hr. apply Hr.
+  Qed.
+
+  Lemma seg_write_image : forall recs, recs <> [] -> lenN recs < U32 ->
+    Codec.seg_write crc recs =
+    Ok (seg_image (seg_hdr_of recs) (repeat 0 10) (map snd recs)
+                  (crc (seg_records_bytes recs)) (lenN (seg_records_bytes recs))
+                  (lenN (seg_records_bytes recs)) SEGMENT_FOOTER_MAGIC).
+  Proof.
+    intros recs Hne Hn. unfold Codec.seg_write. destruct recs as [|r0 rs]; [congruence|].
+    set (recs := r0 :: rs) in *.
+    replace (lenN recs mod 4294967296) with (lenN recs) by (symmetry; apply N.mod_small; exact Hn).
+    fold (seg_hdr_of recs). rewrite seg_hdr_bytes_eq by reflexivity.
+    unfold seg_image, seg_ftr_bytes, seg_ftr_image. cbn [sf_ck sf_usize sf_csize sf_magic].
+    now rewrite seg_records_bytes_eq.
+  Qed.
+
+  Lemma segment_roundtrip : forall recs img,
+    recs <> [] -> lenN recs < U32 -> Forall rec_wf recs -> lenN (seg_records_bytes recs) < U64 ->
+    Codec.seg_write crc recs = Ok img ->
+    seg_read img = Ok (seg_hdr_of recs, map snd recs).
+  Proof.
+    intros recs img Hne Hn Hall Hsz Hw. rewrite seg_write_image in Hw by auto. inversion Hw; subst img.
+    destruct (seg_hdr_of_wf recs Hn Hall) as (H1 & H2 & H3 & H4).
+    rewrite seg_records_bytes_eq in *.
+    apply seg_read_image; auto.
+    - rewrite H4. unfold lenN. now rewrite map_length.
+    - apply Forall_forall. intros p Hp. apply in_map_iff in Hp as (r & <- & Hr).
+      apply (proj1 (Forall_forall _ _) Hall) in Hr. destruct Hr as (_ & A & B). auto.
+  Qed.
+
+  Lemma segment_prefix_rejected : forall recs img (k : nat),
+    recs <> [] -> lenN recs < U32 -> Forall rec_wf recs ->
+    Codec.seg_write crc recs = Ok img -> (k < length img)%nat ->
+    exists e, seg_read (firstn k img) = Err e.
+  Proof.
+    intros recs img k Hne Hn Hall Hw Hk. rewrite seg_write_image in Hw by auto. inversion Hw; subst img.
+    destruct (seg_hdr_of_wf recs Hn Hall) as (H1 & H2 & H3 & H4).
+    apply seg_prefix_rejected; auto.
+    - rewrite H4. unfold lenN. now rewrite map_length.
+    - apply Forall_forall. intros p Hp. apply in_map_iff in Hp as (r & <- & Hr).
+      apply (proj1 (Forall_forall _ _) Hall) in Hr. apply Hr.
+  Qed.
+
+  (* ---------- damage inside regions covered by a checksum ---------- *)
+  (* records region (any bytes) or the stored data checksum altered *)
+  Lemma seg_data_corruption_rejected : forall h pad rd' fck us cs,
+    seg_hdr_wf h -> seg_hdr_valid h -> sh_flags h = 0 -> lenN pad = 10 ->
+    fck < U32 -> us < U64 -> cs < U64 ->
+    crc rd' <> fck ->
+    seg_read (seg_hdr_image h pad ++ rd' ++ seg_ftr_image fck us cs SEGMENT_FOOTER_MAGIC) = Err EChecksum.
+  Proof.
+    intros h pad rd' fck us cs Hwf Hv Hfl Hpad Hck Hus Hcs Hne. unfold Codec.seg_read.
+    rewrite seg_open_image by (auto; apply lenN_seg_ftr_image; reflexivity).
+    rewrite seg_hdr_validate_ok by auto. cbn [rbind].
+    rewrite seg_ftr_parse by (auto; reflexivity). rewrite bytes_eqb_refl. cbn [rbind].
+    rewrite Hfl. cbn [N.eqb negb rbind].
+    unfold seg_validate. cbn [sg_data sg_ftr sf_ck].
+    replace (crc rd' =? fck) with false by (symmetry; now apply N.eqb_neq). reflexivity.
+  Qed.
+  (* footer magic altered *)
+  Lemma seg_footer_magic_rejected : forall h pad rd fck us cs m,
+    seg_hdr_wf h -> seg_hdr_valid h -> lenN pad = 10 ->
+    fck < U32 -> us < U64 -> cs < U64 -> lenN m = 4 -> m <> SEGMENT_FOOTER_MAGIC ->
+    seg_read (seg_hdr_image h pad ++ rd ++ seg_ftr_image fck us cs m) = Err EMagic.
+  Proof.
+    intros h pad rd fck us cs m Hwf Hv Hpad Hck Hus Hcs Hm Hne. unfold Codec.seg_read.
+    rewrite seg_open_image by (auto; now apply lenN_seg_ftr_image).
+    rewrite seg_hdr_validate_ok by auto. cbn [rbind].
+    rewrite seg_ftr_parse by auto.
+    replace (bytes_eqb m SEGMENT_FOOTER_MAGIC) with false by (symmetry; now apply bytes_eqb_neq).
+    reflexivity.
+  Qed.
+  (* header: any 40 header bytes whose stored checksum is not the checksum of their fields *)
+  Lemma seg_header_corruption_rejected : forall h' pad rd fb,
+    seg_hdr_wf h' -> lenN pad = 10 -> lenN fb = 24 ->
+    sh_ck h' <> crc (seg_fields_of h') ->
+    exists e, seg_read (seg_hdr_image h' pad ++ rd ++ fb) = Err e /\
+              (e = EMagic \/ e = EVersion \/ e = EChecksum).
+  Proof.
+    intros h' pad rd fb Hwf Hpad Hfb Hne. unfold Codec.seg_read.
+    rewrite seg_open_image by auto.
+    unfold seg_hdr_validate, seg_hdr_checksum. fold (seg_fields_of h').
+    destruct (negb (bytes_eqb (sh_magic h') SEGMENT_MAGIC)); [exists EMagic; cbn; auto|].
+    destruct (negb (sh_version h' =? SEGMENT_VERSION)); [exists EVersion; cbn; auto|].
+    replace (sh_ck h' =? crc (seg_fields_of h')) with false by (symmetry; now apply N.eqb_neq).
+    exists EChecksum. cbn. auto.
+  Qed.
+
+  (* ---------- no panic, no fuel exhaustion, on arbitrary bytes ---------- *)
+  Lemma rec_loop_total : forall f remaining d, (length d < f)%nat ->
+    rec_loop f remaining d <> Panic /\ rec_loop f remaining d <> Err EOutOfFuel.
+  Proof.
+    induction f as [|f IH]; intros remaining d Hf; [lia|].
+    destruct (N.eq_dec remaining 0) as [->|Hr]; [cbn; split; discriminate|].
+    destruct d as [|x d']; [cbn [Codec.rec_loop]; replace (remaining =? 0) with false by (symmetry; now apply N.eqb_neq); split; discriminate|].
+    rewrite rec_loop_step by (auto; discriminate).
+    destruct (lenN (x :: d') <? 4) eqn:E4; [split; discriminate|]. apply N.ltb_ge in E4.
+    rewrite (sliceN_ok _ 0 4) by lia. cbn [or_panic rbind].
+    destruct (_ <? _) eqn:El; [split; discriminate|]. apply N.ltb_ge in El.
+    destruct (deser_ok _); [|split; discriminate].
+    match goal with |- context [rec_loop f ?r ?dd] => destruct (IH r dd) as [A B] end.
+    { pose proof (lenN_dropN _ (le_dec (takeN (4 - 0) (dropN 0 (x :: d')))) (dropN 4 (x :: d'))).
+      pose proof (lenN_dropN _ 4 (x :: d')). unfold lenN in *. cbn [length] in *. lia. }
+    destruct (rec_loop f _ _); cbn [rbind]; split; try discriminate; congruence.
+  Qed.
+
+  Lemma seg_hdr_from_bytes_total : forall hb, lenN hb = 40 -> exists h, seg_hdr_from_bytes hb = Ok h.
+  Proof.
+    intros hb H. unfold seg_hdr_from_bytes. rewrite H, seg_hs. cbn [N.ltb N.compare Pos.compare Pos.compare_cont].
+    rewrite (sliceN_ok _ 0 4), (sliceN_ok _ 6 10), (sliceN_ok _ 10 18), (sliceN_ok _ 18 26), (sliceN_ok _ 26 30) by lia.
+    unfold indexN. rewrite H. cbn [N.ltb N.compare Pos.compare Pos.compare_cont or_panic rbind].
+    eexists; reflexivity.
+  Qed.
+
+  Lemma seg_read_total : forall img,
+    seg_read img <> Panic /\ seg_read img <> Err EOutOfFuel.
+  Proof.
+    intros img. unfold Codec.seg_read, Codec.seg_open. rewrite seg_hs, seg_fs.
+    destruct (lenN img <? 40 + 24) eqn:E; [cbn; split; discriminate|]. apply N.ltb_ge in E.
+    rewrite (sliceN_ok _ 0 40) by lia. cbn [or_panic rbind].
+    destruct (seg_hdr_from_bytes_total (takeN (40 - 0) (dropN 0 img))) as [h Hh].
+    { rewrite lenN_takeN, lenN_dropN. lia. }
+    rewrite Hh. cbn [rbind].
+    assert (Hv : seg_hdr_validate crc h <> Panic /\ seg_hdr_validate crc h <> Err EOutOfFuel).
+    { unfold seg_hdr_validate. repeat (destruct (negb _); [split; discriminate|]). split; discriminate. }
+    destruct (seg_hdr_validate crc h) as [[]|e|]; cbn [rbind]; [|split; [discriminate|intros X; apply (proj2 Hv); congruence]|exfalso; now apply (proj1 Hv)].
+    rewrite (sliceN_ok _ (lenN img - 24) (lenN img)) by lia. cbn [or_panic rbind].
+    set (fb := takeN (lenN img - (lenN img - 24)) (dropN (lenN img - 24) img)).
+    assert (Lfb : lenN fb = 24) by (unfold fb; rewrite lenN_takeN, lenN_dropN; lia).
+    pose proof (seg_ftr_no_panic fb Lfb) as Hfp.
+    assert (Hfe : seg_ftr_from_bytes fb <> Err EOutOfFuel).
+    { unfold seg_ftr_from_bytes. rewrite Lfb, seg_fs. cbn [N.ltb N.compare Pos.compare Pos.compare_cont].
+      rewrite (sliceN_ok _ 0 4), (sliceN_ok _ 4 12), (sliceN_ok _ 12 20), (sliceN_ok _ 20 24) by lia.
+      cbn [or_panic rbind]. destruct (negb _); discriminate. }
+    destruct (seg_ftr_from_bytes fb) as [ft|e|]; cbn [rbind]; [|split; [discriminate|congruence]|congruence].
+    destruct (negb (sh_flags h =? 0)); [cbn; split; discriminate|].
+    rewrite (sliceN_ok _ 40 (lenN img - 24)) by lia. cbn [or_panic rbind].
+    unfold seg_validate. cbn [sg_data sg_ftr]. destruct (_ =? _); cbn [rbind]; [|split; discriminate].
+    unfold seg_records. cbn [sg_data sg_hdr].
+    match goal with |- context [Codec.rec_loop _ ?f ?r ?dd] => destruct (rec_loop_total f r dd) as [A B]; [lia|] end.
+    destruct (Codec.rec_loop _ _ _ _); cbn [rbind]; split; try discriminate; congruence.
+  Qed.
+End CodecProofs.
